@@ -78,6 +78,11 @@ CHECKS = {
          "PVSS on Ed25519 and P-256, n=2..4 (thorough ..6), all t, secrets {0,1,r}, two second bases: honest shares verify singly and in batch, every subset of decrypted shares in two orders recovers secret*G iff >= t; 16 mutations of every trustee's encrypted share / key / evaluation point (value+1, another trustee's, identity, swaps, another sharing's challenge or share), every commitment coefficient, 11 mutations of every decrypted share incl. republishing under another index: rejected singly, absent from batch output, caller's slices intact, or recovery still exact. DLEQ: 13 alterations incl. sum-preserving ones (xG<->xH, VG<->VH, G<->H, +D/-D) and cross-statement use of batch proofs.",
          "Trusted: seeded dealer randomness; the global challenge is read from the honest dealer's shares.",
          "DESIGN.md §4 C13"),
+ "C12": ("model_checking",
+         "explicit-state BFS over partial-signature event histories on the real DSS object (successor = replay on a fresh instance), lock-step accepted-set model, math/big reference signature",
+         "n=3,4 (thorough ..5), every t, at every participant: all histories up to depth n+2 over {own PartialSig, valid partial of each other signer, value+1 re-signed, signature bit-flipped, own partial echoed back, partial of another session / another message / with replaced session id / with index n, n+1, 2^32-1 and the receiver's own index}. After every transition: accepted <=> first valid partial of this session; EnoughPartialSig <=> |accepted| >= t; Signature() fails below t and otherwise equals R || (k + H(R,A,m)x) computed independently, verifying under dss.Verify, eddsa.Verify and crypto/ed25519.Verify, identical across states, orders and participants.",
+         "Trusted: distributed keys are built from seeded polynomials through the DistKeyShare interface (DKG-produced keys are covered by C11); merged states assume the accepted set determines the future.",
+         "DESIGN.md §4 C12"),
 }
 
 NOT_YET = "check not built yet in this round (planned: see DESIGN.md §4)"
